@@ -300,6 +300,50 @@ def run_c11(ctx):
                 ctx.sample({'op': 'pv/pi', 'cfg': cfg, 'input_hex': hx(d)})
         sample = list(itertools.islice(multiline_mutants(ctx, 200), 0, 20000))
         ctx.violations += judge_sources(ctx, cfg, sample, ops=('pv', 'pi'), srcs=['s', 'b', 'r1'], what_prefix='c11-')
+        ctx.violations += judge_pos(ctx, cfg, 20000 if ctx.tier == 'quick' else 300000)
+
+
+# ------------------------------------------------------------------ position bookkeeping of the readers (Model/Pos.v, Proofs/PosRefine.v)
+def pos_cases(ctx, n):
+    """inputs with newlines at every kind of place x operation strings over next / peek / discard (also the two sequences outside the
+    Read contract: discard without peek, discard at end of input — the model says what the real readers do there too)"""
+    rng = ctx.rng
+    alph = [b'\n', b'\n', b'a', b' ', b'\r', b'\xc3\xa9', b'"', b'\n\n']
+    fixed = [(b'', 'pnpdn'), (b'\n', 'npdnn'), (b'a\nb', 'pndnpnpd'), (b'\n\n\n', 'nnnnn'), (b'ab', 'dd'), (b'', 'pd'), (b'a\n', 'pdpdpdp')]
+    for d, o in fixed:
+        yield d, o, None
+    for i in range(n):
+        d = b''.join(rng.choice(alph) for _ in range(rng.randrange(0, 12)))
+        if i % 3 == 0:      # contract-respecting: discard only right after a peek that found a byte
+            ops, left, pk = [], len(d), False
+            for _ in range(rng.randrange(1, 2 * len(d) + 4)):
+                c = rng.choice('nnpp' + ('d' if pk and left > 0 else 'p'))
+                if c == 'p': pk = True
+                elif c == 'n': left, pk = max(0, left - 1), False
+                else: left, pk = left - 1, False
+                ops.append(c)
+            o = ''.join(ops)
+        else:
+            o = ''.join(rng.choice('nnppd') for _ in range(rng.randrange(1, 2 * len(d) + 4)))
+        yield d, o, (rng.randrange(1, 7) if i % 5 == 0 else None)
+
+def judge_pos(ctx, cfg, n):
+    """the real IoRead / SliceRead / StrRead position(), peek_position(), byte_offset() after every operation vs the models of Model/Pos.v
+    (proved equal to pos_of and to the abstract cursor's error indices); exact traces must agree"""
+    cases = list(pos_cases(ctx, n))
+    lines = ['pos %s %s%s' % (hx(d), o, '' if k is None else ' %d' % k) for d, o, k in cases]
+    io, mo = ctx.both(cfg, lines, impl_name='sjh_pos', model_name='sjdriver_pos')
+    v = []
+    for (d, o, k), line, a, m in zip(cases, lines, io, mo):
+        if a != m:
+            v.append({'what': 'reader-position-bookkeeping', 'cfg': cfg, 'input': hx(d), 'expected': 'model (Model/Pos.v): ' + m, 'actual': a,
+                      'shrinkable': False, 'case': line})
+        elif 'STR-DIFFERS' in a:
+            v.append({'what': 'str-reader-position-differs-from-slice', 'cfg': cfg, 'input': hx(d), 'expected': 'same trace', 'actual': a, 'shrinkable': False, 'case': line})
+    ctx.count('reader-position-op-traces', len(lines))
+    for l in lines[:2]:
+        ctx.sample({'op': 'pos', 'case': l})
+    return v
 
 # ================================================================== C09: sources agree (implementation vs implementation)
 def judge_sources(ctx, cfg, inputs, aux=None, ops=('pv', 'pi'), srcs=None, what_prefix=''):
@@ -374,6 +418,7 @@ def run_c09(ctx):
         ctx.violations += judge_c09(ctx, cfg, gen.depth_docs(ctx.rng) + gen.number_literals(ctx.rng, 300))
         streams = list(stream_inputs(ctx, 4000 if ctx.tier == 'quick' else 40000))
         ctx.violations += judge_stream_sources(ctx, cfg, streams)
+        ctx.violations += judge_pos(ctx, cfg, 20000 if ctx.tier == 'quick' else 300000)
     typed_part(ctx, 'run_c09_typed')
 
 # ================================================================== C10: truncation => Eof at the cut
